@@ -108,7 +108,7 @@ fn check_case(o: &mut Outcome, lens: &[usize], plans: &[Vec<usize>]) {
 /// one token operation checked against the specification: `kind` 0 = local (encrypt with a fixed nonce equals
 /// the model; the model's token decrypts), 1 = public (sign: signature over the spec's PAE bytes; verify accepts),
 /// 2 = public, forged (a signature over different bytes is rejected). `which` selects the long piece.
-fn adapter_op<V: crate::backends::Full>(o: &mut Outcome, kind: usize, which: usize, len: usize, tag: &str) {
+fn adapter_op<V: crate::backends::Full>(o: &mut Outcome, kind: usize, which: usize, len: usize, tag: &str, suffixed: bool) {
     use crate::keys;
     use crate::ops::{self, Nonce, join_token, split_token};
     let name = V::NAME;
@@ -126,14 +126,32 @@ fn adapter_op<V: crate::backends::Full>(o: &mut Outcome, kind: usize, which: usi
         let kb = &ks.locals[2].bytes;
         let key: [u8; 32] = kb[..].try_into().unwrap();
         let nonce = vec![0x42u8; V::nonce_len()];
-        let body = spec::local_encrypt(V::VER, "", &key, &nonce, &msg, &ft, &ad);
-        let want = join_token(&format!("v{}.local.", V::VER), &body, if ft.is_empty() { None } else { Some(&ft) });
-        match subject(|| ops::enc::<V>(&keys::local::<V>(kb), &msg, Some(&ft), &ad, &Nonce::Fixed(nonce.clone()))) {
+        let sfx = if suffixed { "c" } else { "" };
+        let body = spec::local_encrypt(V::VER, sfx, &key, &nonce, &msg, &ft, &ad);
+        let want = join_token(&format!("v{}{sfx}.local.", V::VER), &body, if ft.is_empty() { None } else { Some(&ft) });
+        let seal = || {
+            if suffixed {
+                // a payload type with a non-empty encoding suffix: the suffix is the middle fragment of the header piece
+                ops::seal_local_with::<V, _, _>(&keys::local::<V>(kb), crate::payload::RawC(msg.clone()), ft.clone(), &ad, &Nonce::Fixed(nonce.clone())).map(|t| t.to_string())
+            } else {
+                ops::enc::<V>(&keys::local::<V>(kb), &msg, Some(&ft), &ad, &Nonce::Fixed(nonce.clone()))
+            }
+        };
+        match subject(seal) {
             Ok(Ok(t)) if t == want => o.class("adapter-fed-pae-bytes"),
             Ok(Ok(t)) => o.violate(format!("adapters/{name}/local{tag}"), format!("token differs from the reference model with a {len}-byte {piece}: the MAC adapter did not receive the PAE bytes"), json!({"got": t, "want": want})),
             other => o.violate(format!("adapters/{name}/local-failed{tag}"), format!("{:?}", other.map(|r| r.is_ok())), json!({})),
         }
-        match subject(|| ops::dec::<V>(&keys::local::<V>(kb), &want, &ad)) {
+        let open = || -> Result<(Vec<u8>, Vec<u8>), paseto_core::PasetoError> {
+            if suffixed {
+                let t: paseto_core::tokens::SealedToken<V, paseto_core::version::Local, crate::payload::RawC, Vec<u8>> = want.parse()?;
+                let u = t.decrypt_with_aad(&keys::local::<V>(kb), &ad, &paseto_core::validation::NoValidation::dangerous_no_validation())?;
+                Ok((u.claims.0, u.footer))
+            } else {
+                ops::dec::<V>(&keys::local::<V>(kb), &want, &ad)
+            }
+        };
+        match subject(open) {
             Ok(Ok((c, _))) if c == msg => o.class("adapter-fed-pae-bytes"),
             other => o.violate(format!("adapters/{name}/local-decrypt{tag}"), format!("the specification's token with a {len}-byte {piece} is not decrypted to its message: {:?}", other.map(|r| r.is_ok())), json!({"token": want})),
         }
@@ -141,8 +159,25 @@ fn adapter_op<V: crate::backends::Full>(o: &mut Outcome, kind: usize, which: usi
         let skb = &ks.secrets[0].bytes;
         let sk = keys::secret::<V>(skb);
         let pkb = keys::key_bytes(&sk.public_key());
-        let pre = spec::public_preauth(V::VER, "", &pkb, &msg, &ft, &ad);
-        match subject(|| ops::sign::<V>(&sk, &msg, Some(&ft), &ad, &Nonce::Lib)) {
+        let sfx = if suffixed { "c" } else { "" };
+        let pre = spec::public_preauth(V::VER, sfx, &pkb, &msg, &ft, &ad);
+        let seal = || {
+            if suffixed {
+                ops::seal_public_with::<V, _, _>(&sk, crate::payload::RawC(msg.clone()), ft.clone(), &ad, &Nonce::Lib).map(|t| t.to_string())
+            } else {
+                ops::sign::<V>(&sk, &msg, Some(&ft), &ad, &Nonce::Lib)
+            }
+        };
+        let verify = |t: &str| -> Result<(Vec<u8>, Vec<u8>), paseto_core::PasetoError> {
+            if suffixed {
+                let t: paseto_core::tokens::SealedToken<V, paseto_core::version::Public, crate::payload::RawC, Vec<u8>> = t.parse()?;
+                let u = t.verify_with_aad(&sk.public_key(), &ad, &paseto_core::validation::NoValidation::dangerous_no_validation())?;
+                Ok((u.claims.0, u.footer))
+            } else {
+                ops::verify::<V>(&sk.public_key(), t, &ad)
+            }
+        };
+        match subject(seal) {
             Ok(Ok(t)) => {
                 let parts = split_token(&t);
                 let sig_ok = parts.as_ref().map(|(_, b, _)| {
@@ -160,7 +195,7 @@ fn adapter_op<V: crate::backends::Full>(o: &mut Outcome, kind: usize, which: usi
                         o.violate_env(format!("adapters/{name}/public{tag}"), format!("signature is not over the specification's PAE bytes with a {len}-byte {piece}"), json!({"token": t}));
                     }
                     // and the verifying adapter accepts it
-                    match subject(|| ops::verify::<V>(&sk.public_key(), &t, &ad)) {
+                    match subject(|| verify(&t)) {
                         Ok(Ok((c, _))) if c == msg => {}
                         other => o.violate_env(format!("adapters/{name}/public-verify{tag}"), format!("own token rejected: {:?}", other.map(|r| r.is_ok())), json!({"token": t})),
                     }
@@ -170,7 +205,7 @@ fn adapter_op<V: crate::backends::Full>(o: &mut Outcome, kind: usize, which: usi
                     let at = b2.len() - V::sig_len() - 1;
                     b2[at] ^= 1;
                     let forged = join_token(&h, &b2, f.as_deref());
-                    match subject(|| ops::verify::<V>(&sk.public_key(), &forged, &ad)) {
+                    match subject(|| verify(&forged)) {
                         Ok(Err(_)) => o.class("forged-rejected"),
                         other => o.violate_env(format!("adapters/{name}/public-forged{tag}"), format!("a signature over different bytes is not rejected: {:?}", other.map(|r| r.is_ok())), json!({"token": forged})),
                     }
@@ -185,22 +220,31 @@ fn adapter_op<V: crate::backends::Full>(o: &mut Outcome, kind: usize, which: usi
 /// reference model's if the adapter fed exactly the PAE bytes (long pieces, three-fragment header piece)
 fn adapters<V: crate::backends::Full>(p: &mut Property, thorough: bool) {
     let name = V::NAME;
-    let lens: [usize; 9] = [0, 1, 127, 128, 129, 255, 256, 257, 600];
-    let n = (lens.len() * 3 * 2) as u64;
+    // every length up to 300 (a writer that stages or sizes its buffer wrongly fails at *some* length), then sparse
+    let mut lens: Vec<usize> = (0..=300).collect();
+    lens.extend([511, 512, 513, 600, 1023, 1024, 1025]);
+    if thorough {
+        lens.extend(301..=1100);
+        lens.sort();
+        lens.dedup();
+    }
+    let nl = lens.len();
+    let n = (lens.len() * 3 * 2 * 2) as u64;
     p.subs.push(
         Sub::new(
             format!("adapters/{name}"),
             n,
-            format!("{{local, public}} x the long piece is the {{message, footer, assertion}} x its length in {lens:?}: the token equals the reference model's (local, fixed nonce; Ed25519) or its signature is valid over the specification's PAE bytes under an independent verifier (ECDSA, RSA-PSS); the model's local token decrypts"),
+            format!("{{local, public}} x payload type {{no suffix, encoding suffix \"c\"}} x the long piece is the {{message, footer, assertion}} x its length (every length 0..=300, then 511..513, 600, 1023..1025; thorough: every length to 1100): the token equals the reference model's (local, fixed nonce; Ed25519) or its signature is valid over the specification's PAE bytes under an independent verifier (ECDSA, RSA-PSS); the model's local token decrypts"),
             move |idx, describe| {
                 let local = idx % 2 == 0;
                 let which = ((idx / 2) % 3) as usize;
-                let len = lens[(idx / 6) as usize];
+                let len = lens[((idx / 6) as usize) % nl];
+                let suffixed = (idx / 6) as usize >= nl;
                 let mut o = Outcome::new();
                 if describe {
-                    o.sample = Some(json!({"backend": name, "local": local, "long_piece": (["message", "footer", "assertion"][which]), "len": len}));
+                    o.sample = Some(json!({"backend": name, "local": local, "long_piece": (["message", "footer", "assertion"][which]), "len": len, "payload_type_with_suffix": suffixed}));
                 }
-                adapter_op::<V>(&mut o, if local { 0 } else { 1 }, which, len, "");
+                adapter_op::<V>(&mut o, if local { 0 } else { 1 }, which, len, if suffixed { "/suffixed-payload" } else { "" }, suffixed);
                 o
             },
         )
@@ -228,7 +272,7 @@ fn adapters<V: crate::backends::Full>(p: &mut Property, thorough: bool) {
                         o.evals = 0;
                         for (pos, (kind, len)) in seq2.iter().enumerate() {
                             o.evals += 1;
-                            adapter_op::<V>(&mut o, *kind, pos % 3, *len, &format!("/after-{pos}-operations"));
+                            adapter_op::<V>(&mut o, *kind, pos % 3, *len, &format!("/after-{pos}-operations"), false);
                         }
                         o
                     })
